@@ -2111,7 +2111,8 @@ func (ex *Exec) loopHead(b *ssa.BasicBlock, l *loopInfo, pidx []int, gs []string
 	l.autoPhis = nil
 	for _, in := range b.Instrs {
 		phi, ok := in.(*ssa.Phi)
-		if !ok {
+		if !ok || vc.fc.has("noautoinv") {
+			// "noautoinv": no candidate facts are assumed (and none has to be checked) in this function
 			break
 		}
 		_, signed, isInt := intInfo(phi.Type())
